@@ -284,7 +284,10 @@ def _num_draws(kind: str, pr: dict, nmid: int, nthr: int, seed: int) -> tuple[li
         a, b = (dlo if dlo is not None else -10**9), (dhi if dhi is not None else 10**9)
         if dom != "int" and b - a > 10**9:
             a, b = max(a, -20000000), min(b, 40000000)           # around slide-sized lengths; the far bounds are their own classes
-        mids = _draws(st.integers(a + 1, b - 1), nmid, sd) or [rnd.randint(a + 1, b - 1) for _ in range(nmid)]
+        # the first interior value is a plain uniform draw (used by the pair / triple classes); hypothesis adds its boundary-seeking ones
+        mids = ([rnd.randint(a + 1, b - 1)] + [x for x in _draws(st.integers(a + 1, b - 1), nmid, sd)])[:nmid]
+        while len(mids) < nmid:
+            mids.append(rnd.randint(a + 1, b - 1))
         thrs = []
         if dom == "cpt":
             ks = _draws(st.integers(a // 127 + 1, b // 127 - 1), nthr, sd + 1) or [rnd.randint(a // 127 + 1, b // 127 - 1) for _ in range(nthr)]
@@ -296,8 +299,8 @@ def _num_draws(kind: str, pr: dict, nmid: int, nthr: int, seed: int) -> tuple[li
         a, b = max(a, -2.0), min(b, 3.0)
     if dom == "double" and lo == 0.0:
         a = 1e-6
-    mids = _draws(st.floats(a, b, allow_nan=False, allow_infinity=False, exclude_min=True, exclude_max=True), nmid, sd)
-    mids = [m for m in mids if m != 0.0 or lo != 0.0]
+    mids = [rnd.uniform(a, b)] + _draws(st.floats(a, b, allow_nan=False, allow_infinity=False, exclude_min=True, exclude_max=True), nmid, sd)
+    mids = [m for m in mids if m != 0.0 or lo != 0.0][:nmid]
     while len(mids) < nmid:
         mids.append(rnd.uniform(a, b))
     thrs = []
@@ -329,6 +332,8 @@ def prepare(tier: str, seed: int, kinds: list | None = None) -> list:
         for i, pr in enumerate(k["props"]):
             r = dict(pr)
             dom = pr["dom"]
+            if pr["none"] and (not pr["xp"] or init["x"][i] == "na"):
+                raise RuntimeError("catalogue: %s.%s documents None but the explicit setting cannot be observed (xp)" % (k["kind"], pr["p"]))
             mem, ret = [], []
             if pr["enum"]:
                 import random
